@@ -3,8 +3,24 @@ At every quiescent point of generated histories (file histories, namespace histo
 RDB partition) the raw image must decode, and the decoded tree, metadata and file bytes must equal the reference model."""
 import os
 from . import common, gen, hist, histcheck, c01, c02
+from .common import hexs
 
 NEEDED = ["adfNormalSum", "adfBootSum", "swapTable"]
+
+
+def boot_history(ctx):
+    """bootable floppies: boot code installed on DD and HD disks (the Rootblock field of the boot block is 880 on both, the boot
+    checksum verifies), before and after some entries exist"""
+    rng = ctx.rng
+    flav = rng.choice(gen.FLAVOURS)
+    kind = rng.choice(["DD", "HD", "HD"])
+    bs = 512 if flav & 1 else 488
+    L = gen.dev_create(kind, flav) + ["mountdev 0", "mount 0 0"]
+    if rng.random() < 0.5:
+        L += ["bootinst", "free", "dump $W/img1", "spectree"]
+    L += ["open 0 - %s w" % hexs(b"startup-sequence"), "write 0 3 %d" % rng.choice([10, bs, 3 * bs]), "close 0", "mkdir - %s" % hexs(b"c"),
+          "bootinst", "free", "dump $W/img2", "spectree", "umount", "umountdev", "dump $W/img3", "spectree", "mountdev 0", "mount 0 0", "list - 0 0", "umount", "umountdev"]
+    return L, 0, 1760 if kind == "DD" else 3520, {"flavour": flav, "device": kind}
 
 
 def part_history(ctx):
@@ -44,6 +60,7 @@ def run(ctx):
     # hardfiles with 1..5 bitmap pages (the root block's page list beyond three entries) and, in the thorough tier, a bitmap extension block
     from . import c04
     b += [("multi-page", c04.big_volume) for _ in range(6 if ctx.tier == "quick" else 60)]
+    b += [("bootable-floppy", boot_history) for _ in range(6 if ctx.tier == "quick" else 60)]
     b += [("bitmap-extension-volume", c04.huge_volume) for _ in range(0 if ctx.tier == "quick" else 4)]
     rule = ("same generators as C01 and C02 plus histories on a partition of a two-partition RDB disk; every dumped image is judged by the extracted decoder "
             "(types, self/parent pointers, checksums, hash placement, highSeq/extension counts, OFS data headers, bitmap flag) and compared with the model; "
